@@ -879,8 +879,9 @@ static bool run_scenario(const Source& src, const std::string& bytes, const Opts
 	// ---- leg 1
 	note_inflight(scenario_json(src, o, 1).set("in", skin_state(S0)).dump());
 	OptOptions lo = o.lib(toSSE ? NiVersion::getSSE() : NiVersion::getSK());
+	st.add("evaluations"); // counted before the call: a conversion that faults has been executed, too
+	if (g_checkpoint) g_checkpoint(st);
 	OptResult res = N.OptimizeFor(lo);
-	st.add("evaluations");
 	if (res.versionMismatch) {
 		st.add("version_mismatch");
 		return true;
@@ -955,8 +956,9 @@ static bool run_scenario(const Source& src, const std::string& bytes, const Opts
 		return true;
 	}
 	OptOptions lo2 = o.lib(toSSE ? NiVersion::getSK() : NiVersion::getSSE());
-	OptResult res2 = R.OptimizeFor(lo2);
 	st.add("evaluations");
+	if (g_checkpoint) g_checkpoint(st);
+	OptResult res2 = R.OptimizeFor(lo2);
 	if (bad) {
 		st.add("leg2_fault_watch_only_after_leg1_violation");
 		int rc2 = 0;
@@ -1006,7 +1008,8 @@ static bool run_scenario(const Source& src, const std::string& bytes, const Opts
 						 scenario_json(src, o, 0));
 	st.distinct("outcomes", vf::strf("%s/%d/%zu/%zu", rt.c_str(), cs3.rebuilt, S3.shapes.size(), bytes2.size()));
 	if (sample)
-		st.sample(scenario_json(src, o, 0)
+		st.sample(J(src.json())
+					  .set("opts", o.json())
 					  .set("direction", rt)
 					  .set("input_bytes", (long long) bytes.size())
 					  .set("converted_bytes", (long long) bytes1.size())
